@@ -53,10 +53,42 @@ def run(ctx):
     ]
     ctx.lean(props=["Props.C11"], drivers=["drv_c11"])
     ctx.harness("./cmd/c11")
-    ctx.diff(area="errs", driver="drv_c11", n={"quick": 100000, "thorough": 1500000}, stateful=True, timeout=240,
+    ctx.extra["hardening_audit"] = {
+        "1 numeric magnitudes": "the API has no numeric inputs except format arguments and slog levels: Newf/NewWithCausef "
+                                "with MaxInt64/MinInt64/MaxUint64/0/-1, floats (1e300, -Inf), width/index verbs, "
+                                "missing/extra arguments; LogWithLevel/LogAttrsWithLevel with Warn, Debug-4, MaxInt32, Info "
+                                "and levels one below the enabled one; counts with 1-4 digits in the Message header",
+        "2 size thresholds": "aggregates of 12, 16/17, 32/33, 64/65, 100, 128/129, 256/257, 1000, 1024 elements in the "
+                             "stateful stream (big histories, doubling through aliasing and +1) and in the oracle; call "
+                             "stacks of depth 0..3000 around the 512-frame buffer; cause chains of depth 1..50",
+        "3 entry points": "errors.go: CloneWithPrefixMessage Wrap WrapTyped New Newf NewWithCause NewWithCausef Append Count "
+                          "Message Error Detail StackTrace RawStackTrace ErrorOrNil WrappedErrors Unwrap Format(%s %q %v %+v) "
+                          "LogValue RuntimePrefixesToFilter; recovery.go: Recovery; log.go: Log LogContext LogTo LogContextTo "
+                          "LogWithLevel LogAttrs LogAttrsContext LogAttrsTo LogAttrsContextTo LogAttrsWithLevel StackTraceKey "
+                          "stackValue.StackError/LogValue — all called",
+        "4 callback outcomes": "Recovery with panic(string, empty string, error, sentinel, custom error, *Error, int, struct, "
+                               "typed-nil *Error, typed-nil foreign pointer, nil, nil-map write, nil dereference, index out "
+                               "of range), nil handler, panicking handler, no panic; slog handler that fails, disabled "
+                               "levels, nil logger, nil context; foreign errors with Unwrap, Unwrap []error (Join), As method",
+        "5 aliasing and reuse": "every variable is re-observed after every call; new op `elem` (element of WrappedErrors() "
+                                "as accumulator/argument), clone as accumulator, the accumulator as its own argument; old "
+                                "errors are rendered late and must name their own creating function (stack identity table)",
+        "6 history shapes": "aggregates in first/middle/last position and two in a row; empty/nil-only calls; adoption; "
+                            "typed-nil causes; causes that wrap an *Error (fwrap, fmt.Errorf %w, errors.Join) rendered and "
+                            "wrapped; messages empty, multi-line, with % verbs, with the library's own marker texts, UTF-8",
+        "7 independent oracles": "Count/Message/WrappedErrors/identity come from the Lean model; %q from strconv.Quote; "
+                                 "Newf messages from fmt.Sprintf; the whole trace (function sequence, trimmed and untrimmed) "
+                                 "from runtime.Callers taken on the same source line as the creating call",
+        "8 hangs": "per-line watchdog on burnt CPU time (1 s) and heap (1 GiB): answers `hang`, then skips the stream",
+        "9 no false alarms": "file names, line numbers and path shortening are not compared (only `file:line` shape); "
+                             "control-c11-1 stays silent",
+    }
+    ctx.diff(area="errs", driver="drv_c11", n={"quick": 100000, "thorough": 1000000}, stateful=True, timeout=240,
              trivial=lambda l, o: False, tagger=_tag,
-             theorem="C11.append_items / append_nil_iff / append_args_unchanged / count_eq / wrapped_errors_eq / wrap_* "
-                     "(model = spec); impl != model on this history (every variable is re-observed after every call)")
-    ctx.impl_oracle("fmt", {"quick": 3000, "thorough": 60000},
-                    label="fmt verbs, stack text names the creating function, errors.Is/As/Unwrap reach the cause, "
-                          "ErrorOrNil, Recovery, slog record")
+             theorem="C11.append_items / append_items_alias / append_nil_iff / append_args_unchanged / count_eq / "
+                     "wrapped_errors_eq / wrap_* (model = spec); impl != model on this history (every variable is "
+                     "re-observed after every call)")
+    ctx.impl_oracle("fmt", {"quick": 2500, "thorough": 40000},
+                    label="fmt verbs, whole stack trace against runtime.Callers at the creation site, errors.Is/As/Unwrap "
+                          "through every constructor, ErrorOrNil, Recovery with every panic value kind, every errs/log.go "
+                          "entry point, LogValue, RuntimePrefixesToFilter")
